@@ -104,6 +104,23 @@ CLAIMS = {
              'the negotiated fields (v5 server: cmp::min of max_send and the peer Receive Maximum).',
         note='Not decided: the count at every instant for every interleaving. The check-then-act rule fails on all ten awaiting send paths (known finding D20, one key per API).',
         ref='DESIGN.md section 5 C05'),
+    'C13': dict(
+        technique='MIR rules on wake sites: result-tested / retry-on-cancel, all-exits-wake for window-opening functions, ordering w.r.t. awaits (static analysis)',
+        text='Necessary conditions for no lost wake-up, all paths: every wake of a parked sender has its result tested and a cancelled waiter is skipped (pop reachable again '
+             'from the Err edge); every function that can open the window (pops the outstanding queue without re-queueing, sets cap, clears WRB_ENABLED) passes a waiter wake '
+             'loop / window test on every normal exit; bulk wake-ups are bounded by the free slots; a payload stream is parked only under back-pressure, signalled when it lifts '
+             'and dropped by clear_queues; the back-pressure flag is toggled before the application control service is awaited; the parked object must hand on a wake-up when '
+             'dropped (baton).',
+        note='Not decided: that every future eventually completes (executor fairness, waker delivery). Known finding D10 (no baton: bare Receiver<()>) is listed in known_findings.json.',
+        ref='DESIGN.md section 5 C13'),
+    'C14': dict(
+        technique='data-dependence (origin) rules on the PUBCOMP hand-off + Option-take typestate on the receipt (static analysis)',
+        text='The receiver returned by release_publish is removed from a container keyed by the packet id argument; the PUBREC branch stores the receiver without '
+             'overwriting another exchange\'s entry and keeps the id reserved; the PUBCOMP branch removes only the acknowledged id; release_publish writes exactly one '
+             'PublishRelease carrying its argument; Drop for PublishReceived releases iff the Option was not taken, release(self) consumes the receipt and takes the Option '
+             'before releasing; the PUBREC branch re-queues (same id, AckType::Complete).',
+        note='Not decided: all delivery orders (the checked clauses are order independent).',
+        ref='DESIGN.md section 5 C14'),
 }
 
 NA_REASONS = {}
